@@ -204,6 +204,38 @@ def check_msg(m):
 
         fp = FinishedParams(cd1.ConditionCode(m["cc"]), cd1.DeliveryCode(m["delivery"]), cd1.FileStatus(m["status"]))
         eq(devs, "put_response.from_finished_params.pack", bytes(T.ProxyPutResponse(T.ProxyPutResponseParams.from_finished_params(fp)).pack()), want)
+    if k in ("put_request", "list_req", "list_resp", "put_response", "orig_id"):
+        # forwarding / answering: messages built from the *decoded* parameter object, several times from the same object (a listing
+        # request is answered with "the parameters of the corresponding request"); every one is the reference TLV, and the decoded
+        # LVs still pack to their own octets afterwards
+        got = getattr(T.MessageToUserTlv.unpack(want).to_reserved_msg_tlv(), GETTER_OF[k])()
+        if got is not None:
+            if k == "put_request":
+                makers = [("put_request", lambda: T.ProxyPutRequest(got), m)]
+            elif k == "put_response":
+                makers = [("put_response", lambda: T.ProxyPutResponse(got), m)]
+            elif k == "orig_id":
+                makers = [("orig_id", lambda: T.OriginatingTransactionId(got), m)]
+            else:
+                dpar = got[1] if k == "list_resp" else got
+                makers = [("list_req", lambda: T.DirectoryListingRequest(dpar), dict(m, k="list_req")),
+                          ("list_resp_true", lambda: T.DirectoryListingResponse(True, dpar), dict(m, k="list_resp", ok=True)),
+                          ("list_resp_false", lambda: T.DirectoryListingResponse(False, dpar), dict(m, k="list_resp", ok=False))]
+            # a response carries one octet more than the request: only kinds whose value still fits a TLV (<= 255 octets) are built
+            makers = [(nm, mk, mm) for nm, mk, mm in makers if 5 + len(R.reserved_value(mm)[1]) <= 255]
+            for rnd in ("first", "second"):
+                for nm, mk, mm in makers:
+                    try:
+                        obj = mk()
+                    except Exception as e:  # noqa: BLE001 - a legal parameter object that decoded fine must be accepted
+                        true(devs, f"from_decoded_params.{rnd}.{nm}.accepted", False, f"building from decoded parameters raised {e!r}")
+                        continue
+                    eq(devs, f"from_decoded_params.{rnd}.{nm}.pack", bytes(obj.pack()), R.reserved_tlv(mm))
+            if k in ("put_request", "list_req", "list_resp"):
+                hold = got[1] if k == "list_resp" else got
+                lvs0 = [getattr(hold, a) for a in (("source_file_name", "dest_file_name") if k == "put_request" else ("dir_path", "dir_file_name"))]
+                eq(devs, "from_decoded_params.lv_octets_afterwards", [bytes(x.pack()).hex() for x in lvs0],
+                   [R.lv(bytes.fromhex(m[f])).hex() for f in (("src", "dst") if k == "put_request" else ("path", "file"))])
     if k in ("put_request", "list_req", "list_resp"):
         # the receiver fills in the names of an earlier decoded message (plain attributes of the decoded LV objects); decoding the same
         # octets afterwards gives the packed parameters again
